@@ -5,7 +5,9 @@
 
 /// Compiler-determined layout constants the formal model is regenerated from.
 pub fn consts() -> Vec<(&'static str, u64)> {
-    Vec::new()
+    let mut v = Vec::new();
+    v.extend(wal::layout());
+    v
 }
 
 /// Value codec entry points (types::varint, DataType (de)serialisation).
@@ -34,5 +36,105 @@ pub mod values {
     pub fn deserialize(kind: DataTypeKind, bytes: &[u8]) -> Result<(DataType, usize), String> {
         let (r, n) = kind.reinterpret_cast(bytes).map_err(|e| e.to_string())?;
         Ok((r.to_owned().unwrap_or(DataType::Null), n))
+    }
+}
+
+/// Write-ahead log entry points (io::wal::WriteAheadLog and its reader).
+pub mod wal {
+    use crate::io::{disk::FileOperations, wal::WriteAheadLog};
+    use crate::storage::wal::{
+        BLOCK_HEADER_SIZE, OwnedRecord, RECORD_HEADER_SIZE, RecordType, WAL_RECORD_ALIGNMENT,
+    };
+    use std::{io::Write, path::Path};
+
+    #[derive(Debug, Clone, PartialEq)]
+    pub struct Rec {
+        pub lsn: u64,
+        pub tid: u64,
+        pub prev: Option<u64>,
+        pub oid: Option<u64>,
+        pub row: Option<u64>,
+        pub kind: u8,
+        pub undo: Vec<u8>,
+        pub redo: Vec<u8>,
+    }
+
+    fn kind_of(k: u8) -> RecordType {
+        match k {
+            0x00 => RecordType::Begin,
+            0x01 => RecordType::Commit,
+            0x02 => RecordType::Abort,
+            0x03 => RecordType::End,
+            0x06 => RecordType::Update,
+            0x07 => RecordType::Delete,
+            0x08 => RecordType::Insert,
+            0x09 => RecordType::Create,
+            0x0A => RecordType::Drop,
+            _ => RecordType::Alter,
+        }
+    }
+
+    pub struct Log(Option<WriteAheadLog>);
+
+    impl Log {
+        pub fn create(path: &Path) -> Result<Self, String> {
+            WriteAheadLog::create(path).map(|w| Log(Some(w))).map_err(|e| e.to_string())
+        }
+        pub fn open(path: &Path) -> Result<Self, String> {
+            WriteAheadLog::open(path).map(|w| Log(Some(w))).map_err(|e| e.to_string())
+        }
+        fn w(&mut self) -> &mut WriteAheadLog {
+            self.0.as_mut().unwrap()
+        }
+        pub fn push(&mut self, r: &Rec) -> Result<(), String> {
+            let rec = OwnedRecord::new(
+                r.lsn, r.tid, r.prev, r.oid, r.row, kind_of(r.kind), &r.undo, &r.redo,
+            );
+            self.w().push(rec).map_err(|e| format!("{:?}", e.kind()))
+        }
+        pub fn flush(&mut self) -> Result<(), String> {
+            self.w().flush().map_err(|e| e.to_string())
+        }
+        pub fn truncate(&mut self) -> Result<(), String> {
+            self.w().truncate().map_err(|e| e.to_string())
+        }
+        pub fn last_lsn(&mut self) -> Option<u64> {
+            self.w().last_lsn()
+        }
+        pub fn max_record_size(&mut self) -> usize {
+            self.w().max_record_size()
+        }
+        pub fn read_all(&mut self, read_ahead: usize) -> Result<Vec<Rec>, String> {
+            let mut out = Vec::new();
+            let mut reader = self.w().reader(read_ahead).map_err(|e| e.to_string())?;
+            while let Some(r) = reader.next_ref().map_err(|e| e.to_string())? {
+                let m = r.metadata();
+                out.push(Rec {
+                    lsn: r.lsn(),
+                    tid: r.tid(),
+                    prev: m.prev_lsn,
+                    oid: m.object_id,
+                    row: m.row_id,
+                    kind: r.log_type() as u8,
+                    undo: r.undo_payload().to_vec(),
+                    redo: r.redo_payload().to_vec(),
+                });
+            }
+            Ok(out)
+        }
+        /// Process death: the log object vanishes without running its `Drop` (which would flush).
+        pub fn crash(mut self) {
+            std::mem::forget(self.0.take());
+        }
+    }
+
+    pub fn layout() -> Vec<(&'static str, u64)> {
+        vec![
+            ("wal_block_header_size", BLOCK_HEADER_SIZE as u64),
+            ("wal_block_zero_header_size", std::mem::size_of::<crate::storage::wal::BlockZeroHeader>() as u64),
+            ("wal_record_header_size", RECORD_HEADER_SIZE as u64),
+            ("wal_record_alignment", WAL_RECORD_ALIGNMENT as u64),
+            ("wal_block_size", crate::storage::wal::WAL_BLOCK_SIZE as u64),
+        ]
     }
 }
